@@ -20,7 +20,8 @@ class C04(c01.C01):
                          'participant_variable_not_market_assigned_amount.judged',
                          'sector_ledger_not_sum_of_declared_flows.judged', 'asset_demands_do_not_add_up_to_wealth.judged',
                          'models.judged.with_portfolio_rule_object_shared_by_households',
-                         'models.judged.with_prefix_related_market_codes_and_household_in_both')
+                         'models.judged.with_prefix_related_market_codes_and_household_in_both',
+                         'models.judged.with_three_asset_portfolio')
     which = ('markets', 'ledger')
 
     def make_case(self, rng, idx, tier):
